@@ -174,10 +174,24 @@ def op_transform(ctx, m, step, sig):
         want = m.p - 2 * (nn @ (m.p - p0[:, None]))[None, :] * nn[:, None]
         tol = 1e-12 * (1 + np.abs(m.p).max() + np.abs(p0).max())
     elif kind == 'morphed':
-        a = abs(step['vec'][0]) / 4.0        # a shear (d >= 2) / a stretch by 1 + a > 0 (d == 1): stays a valid mesh
-        new = m.morphed(*([lambda p: p[0] + a * p[-1]] + [None] * (d - 1)))
-        want = m.p.copy()
-        want[0] = m.p[0] + a * m.p[-1]
+        # one function per coordinate, each a function of the ORIGINAL coordinates: coupled shears
+        # (every function reads a coordinate that another one writes), None leaves a coordinate alone
+        a = abs(step['vec'][0]) / 4.0
+        b = abs(step['vec'][1]) / 8.0
+        if d == 1:
+            new = m.morphed(lambda p: p[0] + a * p[0])
+            want = m.p.copy()
+            want[0] = m.p[0] + a * m.p[0]
+        else:
+            funcs = [lambda p: p[0] + a * p[1], lambda p: p[1] + b * p[0]] + [None] * (d - 2)
+            if d == 3 and step['vec'][2] < 0:
+                funcs[2] = lambda p: p[2] + a * p[0]
+            new = m.morphed(*funcs)
+            want = m.p.copy()
+            want[0] = m.p[0] + a * m.p[1]
+            want[1] = m.p[1] + b * m.p[0]
+            if funcs[-1] is not None and d == 3:
+                want[2] = m.p[2] + a * m.p[0]
         tol = 0.0
     else:
         raise ValueError(kind)
